@@ -77,6 +77,9 @@ def gen_case(seed, i, thorough):
     # must not change what is printed
     if r.random() < 0.3:
         c["import_sort"] = [r.choice(["--an", "--lx"])]
+    # an existing target may also be empty (a reserved name, a marker file): still never written
+    if c["target"] in ("file", "symlink-file") and r.random() < 0.3:
+        c["target"] = {"file": "empty-file", "symlink-file": "symlink-empty"}[c["target"]]
     return c
 
 
@@ -162,6 +165,11 @@ def execute(case, workdir):
         elif t == "symlink-file":
             with open(os.path.join(workdir, "real.json"), "wb") as f:
                 f.write(b'{"precious": "target of the symlink"}\n')
+            os.symlink("real.json", F)
+        elif t == "empty-file":
+            open(F, "wb").close()
+        elif t == "symlink-empty":
+            open(os.path.join(workdir, "real.json"), "wb").close()
             os.symlink("real.json", F)
         before = snapshot(F)
         strace = None
@@ -258,6 +266,8 @@ def simplify(case):
                 out.append(dict(case, fault=dict(f, when=w)))
     if case["target"] == "symlink-file":
         out.append(dict(case, target="file"))
+    if case["target"] == "symlink-empty":
+        out.append(dict(case, target="empty-file"))
     return out
 
 
